@@ -284,6 +284,9 @@ def run(fx, chk, tier):
     compose(fx, chk, tier, "R8", "C03", ["R-DEFAULT", "R-COUNT", "R-FOOT", "R-UNITS", "R-PURE"], floor=105, what="reader lookup obligations")
     chk.rule("R9", "the muxer stores into every sample-table field the quantity ISO gives that field (C02 R7 instances, rules/units.py)")
     compose(fx, chk, tier, "R9", "C02", ["R7"], floor=16, what="muxer dimension obligations")
+    chk.rule("R10", "every sample-table field the muxer fills is emitted by its encoder and initialised by its decoder, at the same position (C04 S4/S5 instances of stbl and the sample tables)")
+    TABLES = ("StblBox", "SttsBox", "CttsBox", "StscBox", "StszBox", "StssBox", "StcoBox", "Co64Box")
+    compose(fx, chk, tier, "R10", "C04", ["S4", "S5"], keyfilter=lambda o: any(o["key"].startswith(t) or ("|" + t) in o["key"] for t in TABLES), floor=70, what="sample-table coverage obligations")
     return chk.finish(
         "other",
         "Structural necessary conditions of mux->demux fidelity (exactly-once bookkeeping, final flush, traceless rejection, id pairing, table pairing) checked on the MIR of the muxer with dominance and loop membership. "
